@@ -8,50 +8,640 @@ import Cx.Model.Nfa
 namespace Cx.Nfa
 open Cx
 
+theorem runeWidth_le (h : Bytes) (p : Nat) (hp : p ≤ h.size) : p + runeWidth h p ≤ h.size := by
+  unfold runeWidth
+  split
+  · omega
+  · simp only []
+    split
+    · omega
+    · split
+      · omega
+      · split
+        · omega
+        · split <;> omega
+
+theorem step_inv {N : NFA} {h : Bytes} {q p q' p' : Nat} (s : Step N h (q, p) (q', p')) :
+    match N.get q with
+    | .mtch => False
+    | .fail => False
+    | .byteRange lo hi nx => p < h.size ∧ lo ≤ h.at p ∧ h.at p ≤ hi ∧ q' = nx ∧ p' = p + 1
+    | .sparse ts => p < h.size ∧ firstTrans (h.at p) ts = some q' ∧ p' = p + 1
+    | .split l r => (q' = l ∨ q' = r) ∧ p' = p
+    | .eps nx => q' = nx ∧ p' = p
+    | .cap _ _ nx => q' = nx ∧ p' = p
+    | .look k nx => lookOK k h p = true ∧ q' = nx ∧ p' = p
+    | .runeAny nx => p < h.size ∧ 0 < runeWidth h p ∧ q' = nx ∧ p' = p + runeWidth h p
+    | .runeAnyNotNL nx => p < h.size ∧ h.at p ≠ 10 ∧ 0 < runeWidth h p ∧ q' = nx ∧ p' = p + runeWidth h p := by
+  cases s <;> simp [*]
+
 /-- positions never run past the input -/
 theorem step_pos_le {N : NFA} {h : Bytes} {q i q' i' : Nat} (s : Step N h (q, i) (q', i')) (hi : i ≤ h.size) :
     i ≤ i' ∧ i' ≤ h.size := by
-  sorry
+  have hw := runeWidth_le h i hi
+  cases s <;> omega
+
+theorem steps_pos_le {N : NFA} {h : Bytes} {a b : Nat × Nat} (s : Steps N h a b) (hi : a.2 ≤ h.size) :
+    a.2 ≤ b.2 ∧ b.2 ≤ h.size := by
+  induction s with
+  | refl c => exact ⟨Nat.le_refl _, hi⟩
+  | cons st _ ih =>
+    rename_i a b c
+    obtain ⟨q, i⟩ := a
+    obtain ⟨q', i'⟩ := b
+    have := step_pos_le st hi
+    have := ih this.2
+    simp only at *
+    omega
 
 theorem reaches_pos_le {N : NFA} {h : Bytes} {q i j : Nat} (r : Reaches N h q i j) (hi : i ≤ h.size) :
     i ≤ j ∧ j ≤ h.size := by
-  sorry
+  obtain ⟨m, hs, _, _⟩ := r
+  exact steps_pos_le hs hi
+
+theorem reaches_cons {N : NFA} {h : Bytes} {q i q' i' j : Nat} (s : Step N h (q, i) (q', i'))
+    (r : Reaches N h q' i' j) : Reaches N h q i j := by
+  obtain ⟨m, hs, hm, hlt⟩ := r
+  exact ⟨m, Steps.cons s hs, hm, hlt⟩
+
+theorem btFind_sound (c : BTCtx) (fuel pos q : Nat) (vis vis' : Array Bool) (e : Nat)
+    (hr : btFind c fuel pos q vis = (some e, vis')) : Reaches c.N c.h q pos e := by
+  induction fuel generalizing pos q vis vis' with
+  | zero => simp [btFind] at hr
+  | succ fuel ih =>
+    rw [btFind] at hr
+    split at hr
+    · simp at hr
+    · split at hr
+      · simp at hr
+      · rename_i hq hv
+        simp only [] at hr
+        split at hr
+        · -- mtch
+          rename_i hk
+          simp only [Prod.mk.injEq, Option.some.injEq] at hr
+          obtain ⟨rfl, _⟩ := hr
+          exact ⟨q, Steps.refl _, hk, by omega⟩
+        · -- byteRange
+          rename_i lo hi nx hk
+          split at hr
+          · rename_i hc
+            exact reaches_cons (Step.byteRange hk hc.1 hc.2.1 hc.2.2) (ih _ _ _ _ hr)
+          · simp at hr
+        · -- sparse
+          rename_i ts hk
+          split at hr
+          · simp at hr
+          · rename_i hp
+            split at hr
+            · rename_i nx hf
+              exact reaches_cons (Step.sparse hk (by omega) hf) (ih _ _ _ _ hr)
+            · simp at hr
+        · -- split
+          rename_i l r hk
+          split at hr
+          · rename_i e1 v1 h1
+            simp only [Prod.mk.injEq, Option.some.injEq] at hr
+            obtain ⟨rfl, _⟩ := hr
+            exact reaches_cons (Step.splitL hk) (ih _ _ _ _ h1)
+          · exact reaches_cons (Step.splitR hk) (ih _ _ _ _ hr)
+        · rename_i nx hk
+          exact reaches_cons (Step.eps hk) (ih _ _ _ _ hr)
+        · rename_i idx st nx hk
+          exact reaches_cons (Step.cap hk) (ih _ _ _ _ hr)
+        · rename_i k nx hk
+          split at hr
+          · rename_i hl
+            exact reaches_cons (Step.look hk hl) (ih _ _ _ _ hr)
+          · simp at hr
+        · rename_i nx hk
+          split at hr
+          · rename_i hc
+            exact reaches_cons (Step.runeAny hk hc.1 hc.2) (ih _ _ _ _ hr)
+          · simp at hr
+        · rename_i nx hk
+          split at hr
+          · rename_i hc
+            exact reaches_cons (Step.runeAnyNotNL hk hc.1 hc.2.1 hc.2.2) (ih _ _ _ _ hr)
+          · simp at hr
+        · simp at hr
+
+theorem btMatch_eq_btFind (c : BTCtx) (fuel pos q : Nat) (vis : Array Bool) :
+    btMatch c fuel pos q vis = ((btFind c fuel pos q vis).1.isSome, (btFind c fuel pos q vis).2) := by
+  induction fuel generalizing pos q vis with
+  | zero => simp [btMatch, btFind]
+  | succ fuel ih =>
+    rw [btMatch, btFind]
+    split
+    · simp
+    · split
+      · simp
+      · simp only []
+        split
+        · simp
+        · split
+          · exact ih _ _ _
+          · simp
+        · split
+          · simp
+          · split
+            · exact ih _ _ _
+            · simp
+        · rw [ih]
+          rename_i l r hk
+          cases hb : btFind c fuel pos l (vis.setIfInBounds (c.idx q pos) true) with
+          | mk r1 v1 =>
+            cases r1 with
+            | none => simp [ih]
+            | some e1 => simp
+        · exact ih _ _ _
+        · exact ih _ _ _
+        · split
+          · exact ih _ _ _
+          · simp
+        · split
+          · exact ih _ _ _
+          · simp
+        · split
+          · exact ih _ _ _
+          · simp
+        · simp
 
 /-- soundness of the boolean search from a configuration, for every fuel and every visited set -/
 theorem btMatch_sound (c : BTCtx) (fuel pos q : Nat) (vis vis' : Array Bool)
     (hr : btMatch c fuel pos q vis = (true, vis')) : ∃ j, Reaches c.N c.h q pos j := by
-  sorry
+  rw [btMatch_eq_btFind] at hr
+  cases hb : btFind c fuel pos q vis with
+  | mk r v =>
+    rw [hb] at hr
+    cases r with
+    | none => simp at hr
+    | some e => exact ⟨e, btFind_sound c fuel pos q vis v e hb⟩
 
-theorem btFind_sound (c : BTCtx) (fuel pos q : Nat) (vis vis' : Array Bool) (e : Nat)
-    (hr : btFind c fuel pos q vis = (some e, vis')) : Reaches c.N c.h q pos e := by
-  sorry
+theorem btIsMatchFrom_sound (c : BTCtx) (fuel start : Nat) (vis : Array Bool)
+    (hr : btIsMatchFrom c fuel start vis = true) :
+    ∃ i j, i ≤ c.h.size ∧ Reaches c.N c.h c.N.startAnchored i j := by
+  induction fuel generalizing start vis with
+  | zero => simp [btIsMatchFrom] at hr
+  | succ fuel ih =>
+    rw [btIsMatchFrom] at hr
+    split at hr
+    · simp at hr
+    · rename_i hs
+      cases hb : btMatch c (btFuel c.N c.h) start c.N.startAnchored vis with
+      | mk ok v =>
+        rw [hb] at hr
+        simp only [] at hr
+        cases ok with
+        | true =>
+          obtain ⟨j, hj⟩ := btMatch_sound _ _ _ _ _ _ hb
+          exact ⟨start, j, by omega, hj⟩
+        | false =>
+          simp only [Bool.false_eq_true, ↓reduceIte] at hr
+          exact ih _ _ hr
 
 /-- C14/C01 (backtracker, boolean): `true` only if some substring is accepted -/
 theorem btIsMatch_sound (N : NFA) (h : Bytes) (hr : btIsMatch N h = true) :
-    ∃ i j, i ≤ h.size ∧ Accepts N h i j := by
-  sorry
+    ∃ i j, i ≤ h.size ∧ Accepts N h i j :=
+  btIsMatchFrom_sound { N := N, h := h, spanStart := 0 } _ _ _ hr
+
+theorem btSearchFrom_sound (N : NFA) (h : Bytes) (at_ fuel start s e : Nat)
+    (hr : btSearchFrom N h at_ fuel start = some (s, e)) :
+    start ≤ s ∧ s ≤ h.size ∧ Accepts N h s e := by
+  induction fuel generalizing start with
+  | zero => simp [btSearchFrom] at hr
+  | succ fuel ih =>
+    rw [btSearchFrom] at hr
+    split at hr
+    · simp at hr
+    · rename_i hs
+      simp only [] at hr
+      split at hr
+      · rename_i e1 h1
+        simp only [Option.some.injEq, Prod.mk.injEq] at hr
+        obtain ⟨rfl, rfl⟩ := hr
+        refine ⟨Nat.le_refl _, by omega, ?_⟩
+        exact btFind_sound { N := N, h := h, spanStart := at_ } _ _ _ _ _ _ (Prod.ext h1 rfl)
+      · obtain ⟨h1, h2, h3⟩ := ih _ hr
+        exact ⟨by omega, h2, h3⟩
 
 /-- C14/C02/C07 (backtracker, span): the reported span is an accepting path, starts at or after `at`,
     is ordered and lies inside the input -/
 theorem btSearchAt_sound (N : NFA) (h : Bytes) (at_ s e : Nat) (hr : btSearchAt N h at_ = some (s, e)) :
     at_ ≤ s ∧ s ≤ e ∧ e ≤ h.size ∧ Accepts N h s e := by
-  sorry
+  obtain ⟨h1, h2, h3⟩ := btSearchFrom_sound N h at_ _ _ s e hr
+  have := reaches_pos_le h3 h2
+  exact ⟨h1, this.1, this.2, h3⟩
+
+
+theorem getD_false_lt {vis : Array Bool} {i : Nat} (hv : vis.getD i true = false) : i < vis.size := by
+  rw [Array.getD_eq_getD_getElem?] at hv
+  cases Nat.lt_or_ge i vis.size with
+  | inl h => exact h
+  | inr h => simp [Array.getElem?_eq_none h] at hv
+
+theorem getD_set_self {vis : Array Bool} {i : Nat} (hv : vis.getD i true = false) :
+    (vis.setIfInBounds i true).getD i true = true := by
+  have := getD_false_lt hv
+  simp [Array.getD_eq_getD_getElem?, this]
+
+theorem getD_set_other {vis : Array Bool} {i j : Nat} (hne : i ≠ j) :
+    (vis.setIfInBounds i true).getD j true = vis.getD j true := by
+  simp [Array.getD_eq_getD_getElem?, hne]
+
+theorem getD_set_mono {vis : Array Bool} {i j : Nat} (hv : vis.getD j true = true) :
+    (vis.setIfInBounds i true).getD j true = true := by
+  by_cases hij : i = j
+  · subst hij
+    simp [Array.getD_eq_getD_getElem?, Array.getElem?_setIfInBounds]
+    split <;> simp
+  · rw [getD_set_other hij]; exact hv
+
+theorem count_set_lt {vis : Array Bool} {i : Nat} (hv : vis.getD i true = false) :
+    (vis.setIfInBounds i true).count false + 1 = vis.count false := by
+  have hlt := getD_false_lt hv
+  have hvi : vis[i] = false := by
+    simpa [Array.getD_eq_getD_getElem?, Array.getElem?_eq_getElem hlt] using hv
+  have hpos : 0 < vis.count false := Array.count_pos_iff.mpr (hvi ▸ Array.getElem_mem hlt)
+  simp only [Array.setIfInBounds, hlt, ↓reduceDIte]
+  rw [Array.count_set]
+  simp [hvi]
+  omega
+
+
+theorem idx_inj (c : BTCtx) {q p q2 p2 : Nat} (hq : q < c.N.states.size) (hq2 : q2 < c.N.states.size)
+    (hp : c.spanStart ≤ p) (hp2 : c.spanStart ≤ p2) (he : c.idx q p = c.idx q2 p2) : q = q2 ∧ p = p2 := by
+  unfold BTCtx.idx at he
+  have hn : 0 < c.N.states.size := by omega
+  have h1 := congrArg (· % c.N.states.size) he
+  have h2 := congrArg (· / c.N.states.size) he
+  simp only [Nat.mul_add_mod_self_right, Nat.mod_eq_of_lt hq, Nat.mod_eq_of_lt hq2] at h1
+  simp only [Nat.mul_add_div hn, Nat.mul_comm _ c.N.states.size, Nat.div_eq_of_lt hq, Nat.div_eq_of_lt hq2] at h2
+  omega
+
+theorem idx_lt (c : BTCtx) {q p : Nat} (hq : q < c.N.states.size) (hp : p ≤ c.h.size) :
+    c.idx q p < c.N.states.size * (c.h.size + 1) := by
+  unfold BTCtx.idx
+  have h1 : (p - c.spanStart) * c.N.states.size ≤ c.h.size * c.N.states.size :=
+    Nat.mul_le_mul_right _ (by omega)
+  rw [Nat.mul_add, Nat.mul_comm c.N.states.size c.h.size]
+  omega
+
+theorem get_oob (N : NFA) {q : Nat} (hq : N.states.size ≤ q) : N.get q = .fail := by
+  simp [NFA.get, Array.getD_eq_getD_getElem?, Array.getElem?_eq_none hq]
+
+
+/-- the call from `(q,p)` returns at once -/
+def Pruned (c : BTCtx) (vis : Array Bool) (q p : Nat) : Prop :=
+  c.N.states.size ≤ q ∨ vis.getD (c.idx q p) true = true
+
+/-- every marked configuration that is not on the recursion stack `S` is not a match state and has only
+    pruned successors -/
+def Inv (c : BTCtx) (vis : Array Bool) (S : Nat → Nat → Prop) : Prop :=
+  ∀ q p, q < c.N.states.size → c.spanStart ≤ p → p ≤ c.h.size → vis.getD (c.idx q p) true = true → ¬ S q p →
+    c.N.get q ≠ .mtch ∧ ∀ q' p', Step c.N c.h (q, p) (q', p') → Pruned c vis q' p'
+
+def Mono (vis vis' : Array Bool) : Prop := ∀ i, vis.getD i true = true → vis'.getD i true = true
+
+theorem Mono.refl (vis : Array Bool) : Mono vis vis := fun _ h => h
+theorem Mono.trans {a b d : Array Bool} (h1 : Mono a b) (h2 : Mono b d) : Mono a d := fun i h => h2 i (h1 i h)
+
+theorem Pruned.mono {c : BTCtx} {vis vis' : Array Bool} {q p : Nat} (hm : Mono vis vis') (h : Pruned c vis q p) :
+    Pruned c vis' q p := h.elim Or.inl (fun h => Or.inr (hm _ h))
+
+/-- marking `(q,pos)` and pushing it on the stack keeps the invariant -/
+theorem inv_push {c : BTCtx} {vis : Array Bool} {S : Nat → Nat → Prop} {q pos : Nat}
+    (hinv : Inv c vis S) (hq : q < c.N.states.size) (hpos : c.spanStart ≤ pos) :
+    Inv c (vis.setIfInBounds (c.idx q pos) true) (fun a b => S a b ∨ (a = q ∧ b = pos)) := by
+  intro a b ha hb hb2 hm hns
+  have hne : c.idx q pos ≠ c.idx a b := by
+    intro he
+    obtain ⟨h1, h2⟩ := idx_inj c hq ha hpos hb he
+    exact hns (Or.inr ⟨h1.symm, h2.symm⟩)
+  rw [getD_set_other hne] at hm
+  obtain ⟨h1, h2⟩ := hinv a b ha hb hb2 hm (fun h => hns (Or.inl h))
+  exact ⟨h1, fun q' p' st => (h2 q' p' st).mono (fun _ h => getD_set_mono h)⟩
+
+/-- popping `(q,pos)` once all its successors are pruned -/
+theorem inv_pop {c : BTCtx} {vis' : Array Bool} {S : Nat → Nat → Prop} {q pos : Nat}
+    (hinv : Inv c vis' (fun a b => S a b ∨ (a = q ∧ b = pos)))
+    (hm : c.N.get q ≠ .mtch) (hs : ∀ q' p', Step c.N c.h (q, pos) (q', p') → Pruned c vis' q' p') :
+    Inv c vis' S := by
+  intro a b ha hb hb2 hmk hns
+  by_cases he : a = q ∧ b = pos
+  · obtain ⟨rfl, rfl⟩ := he
+    exact ⟨hm, hs⟩
+  · exact hinv a b ha hb hb2 hmk (fun h => h.elim hns he)
+
+theorem btFind_none (c : BTCtx) (fuel pos q : Nat) (vis vis' : Array Bool) (S : Nat → Nat → Prop)
+    (hr : btFind c fuel pos q vis = (none, vis')) (hf : vis.count false < fuel) (hpos : c.spanStart ≤ pos)
+    (hinv : Inv c vis S) :
+    Inv c vis' S ∧ Pruned c vis' q pos ∧ Mono vis vis' ∧ vis'.count false ≤ vis.count false := by
+  induction fuel generalizing pos q vis vis' S with
+  | zero => omega
+  | succ fuel ih =>
+    rw [btFind] at hr
+    split at hr
+    · rename_i hq
+      simp only [Prod.mk.injEq, true_and] at hr
+      subst hr
+      exact ⟨hinv, Or.inl hq, Mono.refl _, Nat.le_refl _⟩
+    · split at hr
+      · rename_i hq hv
+        simp only [Prod.mk.injEq, true_and] at hr
+        subst hr
+        exact ⟨hinv, Or.inr hv, Mono.refl _, Nat.le_refl _⟩
+      · rename_i hq hv
+        have hq : q < c.N.states.size := by omega
+        have hv : vis.getD (c.idx q pos) true = false := by simpa using hv
+        have hself := getD_set_self hv
+        have hcnt := count_set_lt hv
+        have hm1 : Mono vis (vis.setIfInBounds (c.idx q pos) true) := fun _ h => getD_set_mono h
+        have hinv1 := inv_push hinv hq hpos
+        have hf1 : (vis.setIfInBounds (c.idx q pos) true).count false < fuel := by omega
+        -- closing argument shared by all cases
+        have fin : ∀ v, Inv c v (fun a b => S a b ∨ (a = q ∧ b = pos)) →
+            Mono (vis.setIfInBounds (c.idx q pos) true) v →
+            v.count false ≤ (vis.setIfInBounds (c.idx q pos) true).count false →
+            c.N.get q ≠ .mtch → (∀ q' p', Step c.N c.h (q, pos) (q', p') → Pruned c v q' p') →
+            Inv c v S ∧ Pruned c v q pos ∧ Mono vis v ∧ v.count false ≤ vis.count false := by
+          intro v hi hmv hcv hnm hsucc
+          exact ⟨inv_pop hi hnm hsucc, Or.inr (hmv _ hself), hm1.trans hmv, by omega⟩
+        simp only [] at hr
+        split at hr
+        · simp at hr
+        · -- byteRange
+          rename_i lo hi nx hk
+          split at hr
+          · obtain ⟨h1, h2, h3, h4⟩ := ih _ _ _ _ _ hr hf1 (by omega) hinv1
+            refine fin _ h1 h3 h4 (by simp [hk]) ?_
+            intro q' p' st
+            have := step_inv st
+            simp only [hk] at this
+            obtain ⟨_, _, _, rfl, rfl⟩ := this
+            exact h2
+          · rename_i hc
+            simp only [Prod.mk.injEq, true_and] at hr
+            subst hr
+            refine fin _ hinv1 (Mono.refl _) (Nat.le_refl _) (by simp [hk]) ?_
+            intro q' p' st
+            have := step_inv st
+            simp only [hk] at this
+            exact absurd ⟨this.1, this.2.1, this.2.2.1⟩ hc
+        · -- sparse
+          rename_i ts hk
+          split at hr
+          · rename_i hc
+            simp only [Prod.mk.injEq, true_and] at hr
+            subst hr
+            refine fin _ hinv1 (Mono.refl _) (Nat.le_refl _) (by simp [hk]) ?_
+            intro q' p' st
+            have := step_inv st
+            simp only [hk] at this
+            omega
+          · split at hr
+            · rename_i nx hft
+              obtain ⟨h1, h2, h3, h4⟩ := ih _ _ _ _ _ hr hf1 (by omega) hinv1
+              refine fin _ h1 h3 h4 (by simp [hk]) ?_
+              intro q' p' st
+              have := step_inv st
+              simp only [hk] at this
+              obtain ⟨_, h5, rfl⟩ := this
+              rw [hft] at h5
+              cases h5
+              exact h2
+            · rename_i hft
+              simp only [Prod.mk.injEq, true_and] at hr
+              subst hr
+              refine fin _ hinv1 (Mono.refl _) (Nat.le_refl _) (by simp [hk]) ?_
+              intro q' p' st
+              have := step_inv st
+              simp only [hk] at this
+              rw [hft] at this
+              exact nomatch this.2.1
+        · -- split
+          rename_i l r hk
+          split at hr
+          · simp at hr
+          · rename_i v1 hl
+            obtain ⟨h1, h2, h3, h4⟩ := ih _ _ _ _ _ hl hf1 hpos hinv1
+            obtain ⟨g1, g2, g3, g4⟩ := ih _ _ _ _ _ hr (by omega) hpos h1
+            refine fin _ g1 (h3.trans g3) (by omega) (by simp [hk]) ?_
+            intro q' p' st
+            have := step_inv st
+            simp only [hk] at this
+            obtain ⟨h5, rfl⟩ := this
+            cases h5 with
+            | inl h5 => subst h5; exact h2.mono g3
+            | inr h5 => subst h5; exact g2
+        · -- eps
+          rename_i nx hk
+          obtain ⟨h1, h2, h3, h4⟩ := ih _ _ _ _ _ hr hf1 hpos hinv1
+          refine fin _ h1 h3 h4 (by simp [hk]) ?_
+          intro q' p' st
+          have := step_inv st
+          simp only [hk] at this
+          obtain ⟨rfl, rfl⟩ := this
+          exact h2
+        · -- cap
+          rename_i ci cs nx hk
+          obtain ⟨h1, h2, h3, h4⟩ := ih _ _ _ _ _ hr hf1 hpos hinv1
+          refine fin _ h1 h3 h4 (by simp [hk]) ?_
+          intro q' p' st
+          have := step_inv st
+          simp only [hk] at this
+          obtain ⟨rfl, rfl⟩ := this
+          exact h2
+        · -- look
+          rename_i k nx hk
+          split at hr
+          · obtain ⟨h1, h2, h3, h4⟩ := ih _ _ _ _ _ hr hf1 hpos hinv1
+            refine fin _ h1 h3 h4 (by simp [hk]) ?_
+            intro q' p' st
+            have := step_inv st
+            simp only [hk] at this
+            obtain ⟨_, rfl, rfl⟩ := this
+            exact h2
+          · rename_i hc
+            simp only [Prod.mk.injEq, true_and] at hr
+            subst hr
+            refine fin _ hinv1 (Mono.refl _) (Nat.le_refl _) (by simp [hk]) ?_
+            intro q' p' st
+            have := step_inv st
+            simp only [hk] at this
+            exact absurd this.1 hc
+        · -- runeAny
+          rename_i nx hk
+          split at hr
+          · obtain ⟨h1, h2, h3, h4⟩ := ih _ _ _ _ _ hr hf1 (by omega) hinv1
+            refine fin _ h1 h3 h4 (by simp [hk]) ?_
+            intro q' p' st
+            have := step_inv st
+            simp only [hk] at this
+            obtain ⟨_, _, rfl, rfl⟩ := this
+            exact h2
+          · rename_i hc
+            simp only [Prod.mk.injEq, true_and] at hr
+            subst hr
+            refine fin _ hinv1 (Mono.refl _) (Nat.le_refl _) (by simp [hk]) ?_
+            intro q' p' st
+            have := step_inv st
+            simp only [hk] at this
+            exact absurd ⟨this.1, this.2.1⟩ hc
+        · -- runeAnyNotNL
+          rename_i nx hk
+          split at hr
+          · obtain ⟨h1, h2, h3, h4⟩ := ih _ _ _ _ _ hr hf1 (by omega) hinv1
+            refine fin _ h1 h3 h4 (by simp [hk]) ?_
+            intro q' p' st
+            have := step_inv st
+            simp only [hk] at this
+            obtain ⟨_, _, _, rfl, rfl⟩ := this
+            exact h2
+          · rename_i hc
+            simp only [Prod.mk.injEq, true_and] at hr
+            subst hr
+            refine fin _ hinv1 (Mono.refl _) (Nat.le_refl _) (by simp [hk]) ?_
+            intro q' p' st
+            have := step_inv st
+            simp only [hk] at this
+            exact absurd ⟨this.1, this.2.1, this.2.2.1⟩ hc
+        · -- fail
+          rename_i hk
+          simp only [Prod.mk.injEq, true_and] at hr
+          subst hr
+          refine fin _ hinv1 (Mono.refl _) (Nat.le_refl _) (by simp [hk]) ?_
+          intro q' p' st
+          have := step_inv st
+          simp only [hk] at this
+
+/-- a stack-free invariant makes the pruned set closed under `Step` and free of match states -/
+theorem closed_no_reach {c : BTCtx} {vis : Array Bool} (hinv : Inv c vis (fun _ _ => False))
+    {a b : Nat × Nat} (hs : Steps c.N c.h a b) (hp : Pruned c vis a.1 a.2) (h1 : c.spanStart ≤ a.2)
+    (h2 : a.2 ≤ c.h.size) : ¬ (c.N.get b.1 = .mtch ∧ b.1 < c.N.states.size) := by
+  induction hs with
+  | refl x =>
+    intro ⟨hm, hlt⟩
+    cases hp with
+    | inl h => omega
+    | inr h => exact (hinv _ _ hlt h1 h2 h (fun f => f)).1 hm
+  | @cons x y z st _ ih =>
+    obtain ⟨q, p⟩ := x
+    obtain ⟨q', p'⟩ := y
+    have hpl := step_pos_le st h2
+    cases hp with
+    | inl h =>
+      have := step_inv st
+      simp only [get_oob c.N h] at this
+    | inr h =>
+      have hq : q < c.N.states.size := by
+        cases Nat.lt_or_ge q c.N.states.size with
+        | inl h => exact h
+        | inr h' =>
+          have := step_inv st
+          simp only [get_oob c.N h'] at this
+      exact ih ((hinv _ _ hq h1 h2 h (fun f => f)).2 _ _ st) (by simp only; omega) hpl.2
+
+theorem pruned_no_reach {c : BTCtx} {vis : Array Bool} (hinv : Inv c vis (fun _ _ => False)) {q p : Nat}
+    (hp : Pruned c vis q p) (h1 : c.spanStart ≤ p) (h2 : p ≤ c.h.size) : ¬ ∃ j, Reaches c.N c.h q p j := by
+  intro ⟨j, m, hs, hm, hlt⟩
+  exact closed_no_reach hinv hs hp h1 h2 ⟨hm, hlt⟩
+
+theorem freshVis_getD (N : NFA) (h : Bytes) {i : Nat} (hi : i < N.states.size * (h.size + 1)) :
+    (freshVis N h).getD i true = false := by
+  simp [freshVis, Array.getD_eq_getD_getElem?, hi]
+
+theorem freshVis_count (N : NFA) (h : Bytes) : (freshVis N h).count false = N.states.size * (h.size + 1) := by
+  simp [freshVis]
+
+theorem freshVis_inv (c : BTCtx) : Inv c (freshVis c.N c.h) (fun _ _ => False) := by
+  intro q p hq _ hp hm
+  rw [freshVis_getD c.N c.h (idx_lt c hq hp)] at hm
+  cases hm
+
+theorem freshVis_fuel (N : NFA) (h : Bytes) : (freshVis N h).count false < btFuel N h := by
+  rw [freshVis_count, btFuel, Nat.mul_add, Nat.mul_add]
+  omega
 
 /-- completeness from a fresh visited set: `none` means no accepting path from that configuration -/
 theorem btFind_complete (N : NFA) (h : Bytes) (at_ start : Nat) (hs : at_ ≤ start) (hl : start ≤ h.size)
     (hr : (btFind { N := N, h := h, spanStart := at_ } (btFuel N h) start N.startAnchored (freshVis N h)).1 = none) :
     ¬ ∃ j, Accepts N h start j := by
-  sorry
+  have hb := btFind_none { N := N, h := h, spanStart := at_ } (btFuel N h) start N.startAnchored (freshVis N h) _
+    (fun _ _ => False) (Prod.ext hr rfl) (freshVis_fuel N h) hs (freshVis_inv _)
+  exact pruned_no_reach hb.1 hb.2.1 hs hl
+
+theorem btSearchFrom_leftmost (N : NFA) (h : Bytes) (at_ fuel start : Nat) (hs : at_ ≤ start)
+    (hf : h.size + 1 ≤ start + fuel) :
+    (∀ s e, btSearchFrom N h at_ fuel start = some (s, e) → ∀ i j, start ≤ i → i < s → ¬ Accepts N h i j) ∧
+    (btSearchFrom N h at_ fuel start = none → ∀ i j, start ≤ i → i ≤ h.size → ¬ Accepts N h i j) := by
+  induction fuel generalizing start with
+  | zero =>
+    refine ⟨?_, ?_⟩
+    · intro s e hr; simp [btSearchFrom] at hr
+    · intro _ i j h1 h2; omega
+  | succ fuel ih =>
+    rw [btSearchFrom]
+    split
+    · refine ⟨?_, ?_⟩
+      · intro s e hr; simp at hr
+      · intro _ i j h1 h2; omega
+    · rename_i hle
+      simp only []
+      split
+      · rename_i e1 h1
+        refine ⟨?_, ?_⟩
+        · intro s e hr i j h2 h3
+          simp only [Option.some.injEq, Prod.mk.injEq] at hr
+          omega
+        · intro hr; simp at hr
+      · rename_i h1
+        have hno := btFind_complete N h at_ start hs (by omega) h1
+        obtain ⟨ih1, ih2⟩ := ih (start + 1) (by omega) (by omega)
+        refine ⟨?_, ?_⟩
+        · intro s e hr i j h2 h3
+          by_cases he : i = start
+          · subst he; exact fun ha => hno ⟨j, ha⟩
+          · exact ih1 s e hr i j (by omega) h3
+        · intro hr i j h2 h3
+          by_cases he : i = start
+          · subst he; exact fun ha => hno ⟨j, ha⟩
+          · exact ih2 hr i j (by omega) h3
 
 /-- C02 (backtracker): the reported start is the leftmost start with a match, and `none` means there is none -/
 theorem btSearchAt_leftmost (N : NFA) (h : Bytes) (at_ : Nat) (hat : at_ ≤ h.size) :
     (∀ s e, btSearchAt N h at_ = some (s, e) → ∀ i j, at_ ≤ i → i < s → ¬ Accepts N h i j) ∧
-    (btSearchAt N h at_ = none → ∀ i j, at_ ≤ i → i ≤ h.size → ¬ Accepts N h i j) := by
-  sorry
+    (btSearchAt N h at_ = none → ∀ i j, at_ ≤ i → i ≤ h.size → ¬ Accepts N h i j) :=
+  btSearchFrom_leftmost N h at_ _ at_ (Nat.le_refl _) (by omega)
+
+theorem btIsMatchFrom_complete (c : BTCtx) (hc : c.spanStart = 0) (fuel start : Nat) (vis : Array Bool)
+    (i j : Nat) (hsi : start ≤ i) (hi : i ≤ c.h.size) (ha : Reaches c.N c.h c.N.startAnchored i j)
+    (hf : c.h.size + 1 ≤ start + fuel) (hinv : Inv c vis (fun _ _ => False))
+    (hcnt : vis.count false < btFuel c.N c.h) : btIsMatchFrom c fuel start vis = true := by
+  induction fuel generalizing start vis with
+  | zero => omega
+  | succ fuel ih =>
+    rw [btIsMatchFrom]
+    split
+    · omega
+    · rw [btMatch_eq_btFind]
+      simp only []
+      cases hb : btFind c (btFuel c.N c.h) start c.N.startAnchored vis with
+      | mk r v =>
+        cases r with
+        | some e => simp
+        | none =>
+          simp only [Option.isSome_none, Bool.false_eq_true, ↓reduceIte]
+          obtain ⟨h1, h2, h3, h4⟩ := btFind_none c _ _ _ _ _ _ hb hcnt (by omega) hinv
+          by_cases he : start = i
+          · subst he
+            exact absurd ⟨j, ha⟩ (pruned_no_reach h1 h2 (by omega) hi)
+          · exact ih (start + 1) v (by omega) (by omega) h1 (by omega)
 
 /-- C01/C14 (backtracker, boolean), completeness with the visited set SHARED by all start positions -/
 theorem btIsMatch_complete (N : NFA) (h : Bytes) (i j : Nat) (hi : i ≤ h.size) (ha : Accepts N h i j) :
-    btIsMatch N h = true := by
-  sorry
+    btIsMatch N h = true :=
+  btIsMatchFrom_complete { N := N, h := h, spanStart := 0 } rfl (h.size + 1) 0 (freshVis N h) i j
+    (Nat.zero_le _) hi ha (by simp) (freshVis_inv _) (freshVis_fuel N h)
 
 end Cx.Nfa
